@@ -96,7 +96,27 @@ def run(p: Program, rep: Report, tier: str) -> None:
                         if v[0] == "call" and v[1] == ("ext", "email.utils.formatdate") and v[2] and v[2][0] == ("attr", ("param", "stat_result"), "st_mtime") and dict(v[3]).get("usegmt") == ("const", True):
                             lm_ok = True
                         else:
-                            rep.violation("R14.1", construct(gch, text=f"last-modified: {show(v)[:60]}"), where(gch), "Last-Modified is not formatdate(stat_result.st_mtime, usegmt=True)")
+                            # formatdate() of a ROUNDED-UP time is recognised positively (also through a helper): the header may then name a
+                            # later second than the modification, and if_modified_since (int(ctime) <= that second) keeps answering 304 for a
+                            # rewrite that happens within it
+                            MT_ = ("attr", ("param", "stat_result"), "st_mtime")
+                            up_ = v[0] == "call" and v[1] == ("ext", "email.utils.formatdate") and v[2] and v[2][0][0] == "call" \
+                                and v[2][0][1] in (("builtin", "round"), ("ext", "math.ceil")) and v[2][0][2][:1] == (MT_,)
+                            if not up_ and v[0] == "call" and v[1][0] == "func" and MT_ in v[2]:
+                                # one level through a repository helper called with the modification time: `return formatdate(round(<that parameter>), ...)`
+                                try:
+                                    hf_ = p.func(v[1][1])
+                                    prm_ = [a_.arg for a_ in hf_.node.args.posonlyargs + hf_.node.args.args if a_.arg not in ("self", "cls")]
+                                    pn_ = prm_[v[2].index(MT_)]
+                                    rets_ = [n_ for n_ in walk_shallow(hf_.node) if isinstance(n_, ast.Return) and n_.value is not None]
+                                    up_ = len(rets_) == 1 and isinstance(rets_[0].value, ast.Call) and ast.unparse(rets_[0].value.func).split(".")[-1] == "formatdate" and rets_[0].value.args \
+                                        and isinstance(rets_[0].value.args[0], ast.Call) and ast.unparse(rets_[0].value.args[0].func) in ("round", "math.ceil", "ceil") \
+                                        and [ast.unparse(a_) for a_ in rets_[0].value.args[0].args] == [pn_]
+                                except Exception:
+                                    up_ = False
+                            rep.violation("R14.1", construct(gch, text=f"last-modified: {show(v)[:60]}"), where(gch),
+                                          "Last-Modified is formatdate() of the modification time ROUNDED UP to a later second: a rewrite during that second still satisfies If-Modified-Since (stale 304)" if up_
+                                          else "Last-Modified is not formatdate(stat_result.st_mtime, usegmt=True)", positive=bool(up_))
     if etag_ok:
         rep.ok("R14.1", 'emitted etag = \'"\' + generate_etag(stat_result) + \'"\'')
     else:
@@ -164,7 +184,12 @@ def run(p: Program, rep: Report, tier: str) -> None:
                         rep.violation("R14.3", construct(fr, text="if_none_match(...) or if_modified_since(...)"), where(fr),
                                       f"{side}: If-Modified-Since can produce a 304 although an If-None-Match header is present and did not match (RFC 7232 section 6): "
                                       "a same-second rewrite with a different size is answered 304",
-                                      path_facts=pa.fact_text())
+                                      path_facts=pa.fact_text(),
+                                      # a path that has EVALUATED if_none_match(...) to false and if_modified_since(...) to true, with no other test of the
+                                      # header on it, is a positively recognised construct (it contains the runs with a present, non-matching header) -
+                                      # also when the expression moved into a shared helper; without that fact the finding is an absence and may be demoted
+                                      positive=any((not t) and f[0] == "call" and callee_is(f[1], "if_none_match") for f, t in pa.facts)
+                                      and not any(("param", "if_none_match") in list(subterms(f)) and not (f[0] == "call" and callee_is(f[1], "if_none_match")) for f, t in pa.facts))
             if madefile:
                 nfile += 1
                 kw = dict(madefile[0].c)
